@@ -166,6 +166,17 @@ def transforms(rng, fscale):
     return t
 
 
+def transformed(force, m, kind, a, b_, y, x0):
+    r2, _, y2, x02, _ = one(a * force + b_, m)
+    ydiff = None
+    if y is not None and y2 is not None and y.shape == y2.shape:
+        ydiff = float(np.max(np.abs(y - y2))) if y.size else 0.0
+    elif (y is None) != (y2 is None):
+        ydiff = "one-side-only"
+    return {"kind": kind, "a": a, "b": b_, "res": r2, "ydiff": ydiff,
+            "x0same": (x0 == x02) if (x0 is not None and x02 is not None) else None}
+
+
 def work(job):
     """one force array x all estimators x transforms"""
     force = np.asarray(job["force"], dtype=float)
@@ -175,15 +186,8 @@ def work(job):
     for m in job["methods"]:
         res, est, y, x0, mod = one(force, m, raw=True)
         tr = []
-        for kind, a, b_ in (transforms(rng, fscale) if job.get("transforms", True) else []):
-            r2, _, y2, x02, _ = one(a * force + b_, m)
-            ydiff = None
-            if y is not None and y2 is not None and y.shape == y2.shape:
-                ydiff = float(np.max(np.abs(y - y2))) if y.size else 0.0
-            elif (y is None) != (y2 is None):
-                ydiff = "one-side-only"
-            tr.append({"kind": kind, "a": a, "b": b_, "res": r2, "ydiff": ydiff,
-                       "x0same": (x0 == x02) if (x0 is not None and x02 is not None) else None})
+        for kind, a, b_ in (transforms(rng, fscale) if job.get("transforms", True) else []) + job.get("extra_tr", []):
+            tr.append(transformed(force, m, kind, a, b_, y, x0))
         out.append({"method": m, "res": res, "est": est, "mod": mod, "tr": tr,
                     "y": None if y is None or not job.get("keep_y") else [float(v) for v in y], "x0": x0})
     return out
@@ -194,7 +198,7 @@ def judge(ctx, meta, force, results, truth=None):
     n = len(force)
     for r in results:
         m = r["method"]
-        rep = {"input": {**meta, "method": m, "force": [float(v) for v in force] if n <= 4000 else "see meta"}}
+        rep = {"input": {**meta, "method": m, "force": [float(v) for v in force] if n <= 20000 else "see meta"}}
         res = r["res"]
         shape = meta.get("kind", "?")
         if isinstance(res, str):
@@ -221,7 +225,15 @@ def judge(ctx, meta, force, results, truth=None):
                               rep2)
                 continue
             lim = 0 if t["kind"] == "pow2" else 1
-            if abs(r2 - res) > lim:
+            if abs(r2 - res) > lim and t["kind"] != "pow2" and m in FITTED and isinstance(t["ydiff"], float) \
+                    and t["ydiff"] <= 1e-12 and t["x0same"]:
+                # the optimiser was handed the same start index and the same normalised force up to binary64
+                # rounding (the theorem's hypothesis holds up to rounding) and still ends elsewhere
+                ctx.violation(f"optimiser-amplifies-rounding:{m}",
+                              f"{m}: index {res} becomes {r2} when the force is mapped to {t['a']!r}*force + "
+                              f"{t['b']!r}; the normalised force handed to Nelder-Mead differs by {t['ydiff']:.1e} "
+                              f"only ({shape}, {n} samples)", rep2)
+            elif abs(r2 - res) > lim:
                 ctx.violation(f"not-invariant:{t['kind']}:{m}",
                               f"{m}: index {res} becomes {r2} when the force is mapped to {t['a']!r}*force + "
                               f"{t['b']!r} ({shape}, {n} samples)", rep2)
@@ -289,10 +301,20 @@ def run(ctx):
     rng = ctx.rng
     jobs, metas = [], []
 
-    def add(meta, force, truth=None, tr=True, keep_y=False):
+    def add(meta, force, truth=None, tr=True, keep_y=False, extra_tr=None):
         jobs.append({"force": list(map(float, force)), "methods": methods, "seed": rng.randrange(1 << 30),
-                     "transforms": tr, "keep_y": keep_y})
+                     "transforms": tr, "keep_y": keep_y, "extra_tr": extra_tr or []})
         metas.append((meta, truth))
+
+    # 0. the recorded inputs of the known findings run first (they must still fail the same way)
+    known = json.loads((pathlib.Path(__file__).resolve().parents[3] / "known_findings.json").read_text())
+    for k in known.get("findings", []):
+        g = k.get("input")
+        if k["property"] == "C08" and g and g.get("kind") == "random-curve":
+            f, nb = model_curve(g["model"], g["n"], g["bf"], g["depth"], g["pidx"], g["retract"], g["noise"], g["tilt"],
+                                g["seed"])
+            add({k_: v for k_, v in g.items() if k_ not in ("method", "factors")}, f + g["offset"], tr=False,
+                extra_tr=[("factor", a, 0.0) for a in g["factors"]])
 
     # 1. accuracy grid (deterministic)
     for g in grid(ctx.tier):
@@ -443,12 +465,10 @@ def replay(ctx, path):
         return ctx.finish()
     ctx.build(MODS)
     m = inp["method"]
-    job = {"force": inp["force"], "methods": [m], "seed": 1, "transforms": True}
-    res = work(job)
     t = inp.get("transform")
-    if t:
-        r2 = one(t["a"] * np.asarray(inp["force"]) + t["b"], m)[0]
-        res[0]["tr"].append({"kind": t["kind"], "a": t["a"], "b": t["b"], "res": r2, "ydiff": None, "x0same": None})
+    job = {"force": inp["force"], "methods": [m], "seed": 1, "transforms": True,
+           "extra_tr": [(t["kind"], t["a"], t["b"])] if t else []}
+    res = work(job)
     truth = rec.get("expected") if rec.get("signature", "").startswith("inaccurate") else None
     judge(ctx, {k: v for k, v in inp.items() if k not in ("force", "method", "transform")}, inp["force"], res,
           truth=truth)
